@@ -31,7 +31,10 @@ Section Changelog.
   Definition lf (l : str) : str := l ++ [nl].           (* a line as Go sees it *)
 
   Definition parse_args (options : str) : list (str * str) :=
-    map (fun e => let (k, v) := partition (ctrim e) (s "=") in (ctrim k, ctrim v)) (split ","%char options).
+    (* "zero or more keyword=value items": an empty piece - nothing behind the semicolon, or behind a comma - is no item (repair
+       of the r14 finding: "hello (2.10-1) unstable;" had the option "" = "") *)
+    map (fun e => let (k, v) := partition (ctrim e) (s "=") in (ctrim k, ctrim v))
+        (filter (fun e => negb (str_eqb (ctrim e) [])) (split ","%char options)).
 
   Inductive res (A : Type) := ROk (a : A) (rest : list str) | REof | RErr.
   Arguments ROk {A}. Arguments REof {A}. Arguments RErr {A}.
